@@ -5,6 +5,7 @@ use xot::{NameId, NamespaceId, Node, PrefixId, Xot};
 
 pub fn register(v: &mut Vec<(&'static str, crate::Harness)>) {
     v.push(("h_c09_scope", h_c09_scope));
+    v.push(("h_c09_loose", h_c09_loose));
 }
 
 pub struct Ids {
@@ -39,7 +40,9 @@ pub fn config(i: &Ids, c: usize) -> Vec<(PrefixId, NamespaceId)> {
         4 => vec![(i.empty, i.none)],
         5 => vec![(i.p, i.a), (i.q, i.a)],
         6 => vec![(i.q, i.b), (i.empty, i.a)],
-        _ => vec![(i.q, i.a), (i.p, i.b)],
+        7 => vec![(i.q, i.a), (i.p, i.b)],
+        // (only used where a harness asks for CONFIGS + 1 layouts) default declaration first, then a prefix for the same namespace
+        _ => vec![(i.empty, i.a), (i.q, i.a)],
     }
 }
 
@@ -75,7 +78,7 @@ pub fn h_c09_scope() {
     let xml = (xot.xml_prefix(), xot.xml_namespace());
     let c0 = sym::choose("c0", CONFIGS);
     let c1 = sym::choose("c1", sym::param("NC1", CONFIGS));
-    let c2 = sym::choose("c2", CONFIGS);
+    let c2 = sym::choose("c2", CONFIGS + 1);
     let chain = vec![config(&i, c0), config(&i, c1), config(&i, c2)];
     // names: the innermost element's name and one attribute on it
     let el_ns = [i.none, i.a, i.b][sym::choose("elns", 3)];
@@ -94,6 +97,9 @@ pub fn h_c09_scope() {
         }
     }
     xot.set_attribute(e2, n_at, "v");
+    // an attribute in the xml namespace: its prefix is always bound
+    let n_lang = xot.add_name_ns("lang", xml.1);
+    xot.set_attribute(e2, n_lang, "en");
     let txt = xot.new_text("x");
     xot.append(e2, txt).unwrap();
     let attr_node = xot.attributes(e2).nodes().next().unwrap();
@@ -181,6 +187,13 @@ pub fn h_c09_scope() {
             Err(_) => sym::check("attribute-name-error-only-if-no-usable-prefix", ns != i.none && !usable),
         }
     }
+    if which == 2 {
+        let lang_node = xot.attributes(e2).get_node(n_lang).unwrap();
+        match xot.node_name_ref(lang_node) {
+            Ok(Some(r)) => sym::check("xml-attribute-uses-the-xml-prefix", r.prefix_id() == xml.0),
+            _ => sym::check("xml-attribute-uses-the-xml-prefix", false),
+        }
+    }
     // unresolved namespaces of the innermost element and inherited prefixes
     if which == 0 {
         let own = scope(&i, xml, &chain[2..3]);
@@ -233,4 +246,29 @@ pub fn h_c09_scope() {
             }
         }
     }
+}
+
+/// nodes without a parent (and a document node): only the xml prefix is in scope
+pub fn h_c09_loose() {
+    let mut xot = Xot::new();
+    let i = ids(&mut xot);
+    let xml = (xot.xml_prefix(), xot.xml_namespace());
+    let n = xot.add_name("e");
+    let doc_el = xot.new_element(n);
+    xot.set_namespace(doc_el, i.p, i.a);
+    let node = match sym::choose("what", 7) {
+        0 => xot.new_text("t"),
+        1 => xot.new_comment("c"),
+        2 => xot.new_processing_instruction(n, None),
+        3 => xot.new_attribute_node(n, "v".to_string()),
+        4 => xot.new_namespace_node(i.p, i.a),
+        5 => xot.new_document_with_element(doc_el).unwrap(),
+        _ => xot.new_element(n),
+    };
+    sym::check("xml-prefix-always-bound", xot.namespace_for_prefix(node, xml.0) == Some(xml.1));
+    sym::check("xml-prefix-defined", xot.is_prefix_defined(node, xml.0));
+    sym::check("xml-namespace-has-the-xml-prefix", xot.prefix_for_namespace(node, xml.1) == Some(xml.0));
+    sym::check("other-prefix-unbound", xot.namespace_for_prefix(node, i.p).is_none() && !xot.is_prefix_defined(node, i.q));
+    let got: Vec<(PrefixId, NamespaceId)> = xot.namespaces_in_scope(node).collect();
+    sym::check("only-xml-in-scope", got.len() == 1 && got[0] == xml);
 }
